@@ -1513,6 +1513,7 @@ impl Engine {
         let sender = self.caller_addr(user);
         let mut next = self.m.cfg.clone();
         let (mut nc, mut pc, mut fc, mut mon, mut bp) = (None, None, None, None, None);
+        let mut upper_prefix = false;
         let mut new_prefix_len: Option<usize> = None;
         match change {
             CfgChange::Fee(rate, t) => {
@@ -1616,6 +1617,7 @@ impl Engine {
                 next.pprefix = newp.to_ascii_lowercase();
                 if newp != next.pprefix {
                     self.stats.flags.insert("uppercase_protocol_prefix");
+                    upper_prefix = true;
                 }
                 next.oracle = None;
                 let mut p = self.protocol_cfg();
@@ -1645,6 +1647,9 @@ impl Engine {
             Expect::Err
         } else if self.prefix_foreign() && new_prefix_len.is_none() {
             // addresses built under the chain prefix are not valid under the configured one
+            Expect::Any
+        } else if upper_prefix {
+            // C14: accepted prefixes are lower-case; an upper-case spelling may be lower-cased or refused
             Expect::Any
         } else if next.staker == next.collector || next.fee_rate > 100_000 || !deadline_ok(self.ch.now_s(), next.batch_period) || !deadline_ok(self.ch.now_s(), next.unbonding) {
             // well-formed as far as C14 goes, yet an implementation may refuse more than C14 lists (one account in two
